@@ -56,6 +56,7 @@ Definition enum_obj (values : list pyval) (bv : bool) : pyval :=
 
 Section View.
   Variable pat_text : N -> pystr.      (* the text of pattern id p (the model keeps patterns as oracle ids) *)
+  Variable ei : einfo_t.               (* per enum class: mixed-in primitive type, serialization_by_value of its fields *)
 
   Definition opat (o : option N) : pyval := match o with Some p => PStr (pat_text p) | None => PNone end.
 
@@ -70,7 +71,7 @@ Section View.
     | FNone => PStruct (s2p "NoneField") []
     | FAnything => PStruct (s2p "Anything") []
     | FEnumLit vs => enum_obj vs false
-    | FEnumCls cls ms => enum_obj (map (member_val cls) ms) false
+    | FEnumCls cls ms => enum_obj (map (member_val cls) ms) (eo_by_value (ei cls))
     | FSeqAny k sz u => PStruct (seq_class k) (seq_attrs PNone sz u None)
     | FSeqEach k g sz u => PStruct (seq_class k) (seq_attrs (field_obj g) sz u None)
     | FSeqPos k gs sz u add => PStruct (seq_class k) (seq_attrs (PList (map field_obj gs)) sz u add)
@@ -91,14 +92,14 @@ Section View.
   Definition mapper_obj (mapper_cls : pystr) (value : pyval) : pyval := PStruct mapper_cls [(s2p "value", value)].
 
   (* the schema as the Python dict *)
-  Definition jschema (f : field) : pyval := sch_json pat_text (fschema f).
+  Definition jschema (f : field) : pyval := sch_json pat_text ((fschema ei) f).
   Definition jkws (kws : list kw) : pyval := PDict (map (kw_json pat_text) kws).
 
   Lemma sch_json_Sch kws : sch_json pat_text (Sch kws) = jkws kws.
   Proof. reflexivity. Qed.
 
   Lemma jschema_dict f : exists kv, jschema f = PDict kv.
-  Proof. unfold jschema. destruct (fschema f) as [kws]. eexists. reflexivity. Qed.
+  Proof. unfold jschema. destruct ((fschema ei) f) as [kws]. eexists. reflexivity. Qed.
 
   (* ---------------------------------------------------------------- the context *)
   Variable s2s : pyval -> pyval -> res pyval.
@@ -185,7 +186,7 @@ Section View.
   (* ---------------------------------------------------------------- MapMapper *)
 
   (* the class and the attribute list of the object of a declaration *)
-  Definition field_class (f : field) : pystr :=
+  Definition field_pyclass (f : field) : pystr :=
     match f with
     | FNumber k s _ => num_class k s
     | FString _ => s2p "String" | FBoolean => s2p "Boolean" | FNone => s2p "NoneField" | FAnything => s2p "Anything"
@@ -200,7 +201,7 @@ Section View.
   Definition field_attrs (f : field) : list (pystr * pyval) :=
     match field_obj f with PStruct _ a => a | _ => [] end.
 
-  Lemma field_obj_struct f : field_obj f = PStruct (field_class f) (field_attrs f).
+  Lemma field_obj_struct f : field_obj f = PStruct (field_pyclass f) (field_attrs f).
   Proof. destruct f; reflexivity. Qed.
 
   (* the key pattern, if any, is not the empty text (see the note at [generated_MapMapper_empty_pattern]) *)
@@ -258,7 +259,7 @@ Section View.
       = Raise TypeError.
   Proof.
     intros rec mc kf V sz sm Hk. rewrite (field_obj_struct kf). generalize (field_attrs kf). intro A.
-    dfield kf; try discriminate Hk; cbn [field_class]; vm_compute; reflexivity.
+    dfield kf; try discriminate Hk; cbn [field_pyclass]; vm_compute; reflexivity.
   Qed.
 
   (* DISAGREEMENT with the hand model (which says "patternProperties" for every key pattern): a key pattern
@@ -295,49 +296,76 @@ Section View.
     unfold EnumMapper__to_schema; cbv zeta;
     rewrite !attr_value; cbn [bind]; rewrite !attr_values; cbn [bind py_listcomp].
 
-  Lemma mapM_guard {A} (F : A -> res A) (ok : A -> bool) (e : exn) l :
-    (forall x, In x l -> F x = if ok x then Ok x else Raise e) ->
-    mapM F l = if forallb ok l then Ok l else Raise e.
+  Lemma mapM_mapO {A B} (F : A -> res B) (g : A -> option B) (e : exn) l :
+    (forall x, In x l -> F x = match g x with Some y => Ok y | None => Raise e end) ->
+    mapM F l = match mapO g l with Some r => Ok r | None => Raise e end.
   Proof.
     induction l as [|x l IH]; intro H; [reflexivity|].
-    cbn [mapM forallb]. rewrite (H x (or_introl eq_refl)).
-    destruct (ok x); cbn [bind andb]; [|reflexivity].
-    rewrite IH; [destruct (forallb ok l); reflexivity|].
-    intros y Hy. apply H. right. exact Hy.
+    cbn [mapM mapO]. rewrite (H x (or_introl eq_refl)).
+    destruct (g x) as [y|]; cbn [bind]; [|reflexivity].
+    rewrite IH; [destruct (mapO g l); reflexivity|].
+    intros z Hz. apply H. right. exact Hz.
   Qed.
 
-  (* literals that are plain data (an enum member among the literals of a FEnumLit is outside the model's
-     reading of FEnumLit; objects are not data) *)
+  (* literals that are data (None, numbers, strings, containers) or enum members; Python objects of other kinds
+     are outside the literals of the model *)
   Definition plain_lit (v : pyval) : bool :=
-    match v with PEnum _ _ _ | PStruct _ _ | POther _ _ => false | _ => true end.
+    match v with PStruct _ _ | POther _ _ => false | _ => true end.
 
-  (* Enum over literals: each literal is kept when it is an int / str / float, else TypeError *)
+  (* Enum over literals (enum members among them included): the adjusted values, TypeError if one has none *)
   Lemma generated_EnumMapper_to_schema_lit : forall rec mc vs sm,
       forallb plain_lit vs = true ->
       EnumMapper__to_schema s2s defs_store rec (mapper_obj mc (field_obj (FEnumLit vs))) sm
-      = if forallb enum_lit_ok vs then Ok (jschema (FEnumLit vs)) else Raise TypeError.
+      = if (mappable ei) (FEnumLit vs) then Ok (jschema (FEnumLit vs)) else Raise TypeError.
   Proof.
     intros rec mc vs sm H. cbn [field_obj]. enum_open.
-    match goal with |- context [mapM ?F vs] => rewrite (mapM_guard F enum_lit_ok TypeError vs) end.
-    - destruct (forallb enum_lit_ok vs); reflexivity.
+    match goal with |- context [mapM ?F vs] => rewrite (mapM_mapO F (adjust_val ei false) TypeError vs) end.
+    - unfold jschema. cbn [mappable fschema]. unfold enum_mappable, enum_schema. cbn [enum_vals].
+      destruct (mapO (adjust_val ei false) vs); reflexivity.
     - intros v Hin. rewrite forallb_forall in H. specialize (H v Hin). clear Hin.
       destruct v as [|b|n|s|l|l|l|fr l|kv|c n y|c ats|tg r]; try discriminate H;
         try match goal with x : num |- _ => destruct x end; vm_compute; reflexivity.
   Qed.
 
-  (* Enum over (a subset of) the members of an enum class: the member names (serialization_by_value off) *)
+  Lemma mapO_plain by_value vs : mapO (adjust_val ei by_value) vs <> None -> forallb plain_lit vs = true.
+  Proof.
+    induction vs as [|v vs IH]; [reflexivity|]. cbn [mapO forallb]. intro H.
+    destruct (adjust_val ei by_value v) eqn:Ev; [|exfalso; apply H; reflexivity].
+    destruct (mapO (adjust_val ei by_value) vs) eqn:Em; [|exfalso; apply H; reflexivity].
+    rewrite IH by discriminate. rewrite andb_true_r.
+    destruct v; try reflexivity; discriminate Ev.
+  Qed.
+
+  Lemma mappable_lit_plain vs : (mappable ei) (FEnumLit vs) = true -> forallb plain_lit vs = true.
+  Proof.
+    cbn [mappable]. unfold enum_mappable. cbn [enum_vals]. intro H. apply (mapO_plain false).
+    destruct (mapO (adjust_val ei false) vs); [discriminate|discriminate H].
+  Qed.
+
+  Lemma enum_vals_cls c ms :
+    enum_vals ei (FEnumCls c ms)
+    = Some (map (fun m => if eo_by_value (ei c) then snd m else PStr (fst m)) ms).
+  Proof.
+    cbn [enum_vals]. unfold members_of. generalize (eo_by_value (ei c)). intro bv.
+    induction ms as [|[n x] ms IH]; [reflexivity|].
+    cbn [map mapO fst snd]. rewrite IH. destruct bv; reflexivity.
+  Qed.
+
+  (* Enum over (a subset of) the members of an enum class: the member names, or the member values when the
+     field is declared with serialization_by_value=True *)
   Lemma generated_EnumMapper_to_schema_cls : forall rec mc cls ms sm,
       EnumMapper__to_schema s2s defs_store rec (mapper_obj mc (field_obj (FEnumCls cls ms))) sm
       = Ok (jschema (FEnumCls cls ms)).
   Proof.
-    intros rec mc cls ms sm. cbn [field_obj]. enum_open.
+    intros rec mc cls ms sm. unfold jschema. cbn [field_obj fschema]. unfold enum_schema.
+    rewrite enum_vals_cls. generalize (eo_by_value (ei cls)). intro bv. enum_open.
     match goal with |- context [mapM ?F ?l] =>
-      rewrite (mapM_pointwise F (fun v => match v with PEnum _ n _ => PStr n | _ => v end) l) end.
-    - rewrite map_map. reflexivity.
-    - intros v Hin. apply in_map_iff in Hin. destruct Hin as ([n x] & <- & _). vm_compute. reflexivity.
+      rewrite (mapM_pointwise F (fun v => match v with PEnum _ n x => if bv then x else PStr n | _ => v end) l) end.
+    - rewrite map_map. destruct bv; reflexivity.
+    - intros v Hin. apply in_map_iff in Hin. destruct Hin as ([n x] & <- & _). destruct bv; vm_compute; reflexivity.
   Qed.
 
-  (* ... and with serialization_by_value=True (outside the hand model, which has no such flag): the values *)
+  (* the same, with the flag explicit *)
   Lemma generated_EnumMapper_to_schema_cls_by_value : forall rec mc cls ms sm,
       EnumMapper__to_schema s2s defs_store rec (mapper_obj mc (enum_obj (map (member_val cls) ms) true)) sm
       = Ok (jkws [KEnum (map snd ms)]).
@@ -394,7 +422,7 @@ Section View.
     - destruct (rec (PList []) sm); reflexivity.
     - destruct (rec (PList [field_obj a]) sm); reflexivity.
     - rewrite (field_obj_struct b). cbn [py_class_of bind].
-      assert (E : py_eqv (cls_val (field_class b)) (cls_val (s2p "NoneField"))
+      assert (E : py_eqv (cls_val (field_pyclass b)) (cls_val (s2p "NoneField"))
                   = Ok match b with FNone => true | _ => false end).
       { dfield b; vm_compute; reflexivity. }
       rewrite E. cbn [bind]. rewrite <- (field_obj_struct b).
@@ -444,7 +472,7 @@ Section View.
   (* get_mapper on the class of every declaration: the first class along the MRO that is a key of the mapping;
      Deque, NoneField, Anything (and ClassReference) have none *)
   Lemma generated_get_mapper : forall f,
-      get_mapper (cls_val (field_class f))
+      get_mapper (cls_val (field_pyclass f))
       = match mapper_of f with Some m => Ok (cls_val m) | None => Raise NotImplementedError end.
   Proof. intro f. dfield f; vm_compute; reflexivity. Qed.
 
@@ -551,9 +579,16 @@ Section View.
     intros [->|H]; [lia | specialize (IH H); lia].
   Qed.
 
-  Lemma mappable_nonempty : forall f, mappable f = true -> exists k ks, fschema f = Sch (k :: ks).
+  Lemma enum_nonempty f : enum_mappable ei f = true -> exists k ks, enum_schema ei f = Sch (k :: ks).
+  Proof.
+    unfold enum_mappable, enum_schema. destruct (enum_vals ei f); [|discriminate]. intros _.
+    eexists; eexists; reflexivity.
+  Qed.
+
+  Lemma mappable_nonempty : forall f, (mappable ei) f = true -> exists k ks, (fschema ei) f = Sch (k :: ks).
   Proof.
     induction f using field_ind'; intro Hm; try discriminate Hm; cbn [fschema]; unfold num_kws, str_kws; cbn [app];
+      try (apply enum_nonempty; exact Hm);
       try (eexists; eexists; reflexivity).
     (* FAnyOf *)
     destruct fs as [|a [|b [|c r]]]; try (eexists; eexists; reflexivity);
@@ -561,15 +596,15 @@ Section View.
     inversion H as [|? ? Ha _]; subst. apply Ha. exact Hm.
   Qed.
 
-  Lemma jschema_nonempty f : mappable f = true -> exists d D, jschema f = PDict (d :: D).
+  Lemma jschema_nonempty f : (mappable ei) f = true -> exists d D, jschema f = PDict (d :: D).
   Proof.
     intro Hm. destruct (mappable_nonempty f Hm) as (k & ks & E). unfold jschema. rewrite E.
     eexists; eexists; reflexivity.
   Qed.
 
   Lemma items_entry_schema f :
-    items_entry (sch_json pat_text (fschema f)) = [(PStr (s2p "items"), sch_json pat_text (fschema f))].
-  Proof. destruct (fschema f). reflexivity. Qed.
+    items_entry (sch_json pat_text ((fschema ei) f)) = [(PStr (s2p "items"), sch_json pat_text ((fschema ei) f))].
+  Proof. destruct ((fschema ei) f). reflexivity. Qed.
 
   Lemma items_entry_list l : items_entry (PList l) = [(PStr (s2p "items"), PList l)].
   Proof. reflexivity. Qed.
@@ -622,15 +657,15 @@ Section View.
 
     (* the statement, per declaration *)
     Definition conv_ok (f : field) : Prop :=
-      mappable f = true -> keys_text_ok f = true -> refs_ok f ->
+      (mappable ei) f = true -> keys_text_ok f = true -> refs_ok f ->
       forall fuel sm, (cfuel f <= fuel)%nat ->
-      convert_to_schema s2s defs_store fuel (field_obj f) sm = Ok (sch_json pat_text (fschema f)).
+      convert_to_schema s2s defs_store fuel (field_obj f) sm = Ok (sch_json pat_text ((fschema ei) f)).
 
     Lemma conv_fields_IH fs :
-      Forall conv_ok fs -> forallb mappable fs = true -> forallb keys_text_ok fs = true ->
+      Forall conv_ok fs -> forallb (mappable ei) fs = true -> forallb keys_text_ok fs = true ->
       (forall c, In c (flat_map field_refs fs) -> exists d x, s2s (cls_val c) PNone = Ok (PTuple [d; x])) ->
       forall n sm, (fold_right Nat.max 0 (map cfuel fs) <= n)%nat ->
-      conv (S n) (PList (map field_obj fs)) sm = Ok (PList (map (sch_json pat_text) (map fschema fs))).
+      conv (S n) (PList (map field_obj fs)) sm = Ok (PList (map (sch_json pat_text) (map (fschema ei) fs))).
     Proof.
       intros HF Hm Hk Hr n sm Hn. rewrite conv_fields; [unfold jschema; rewrite map_map; reflexivity|].
       intros g Hg. unfold jschema. rewrite Forall_forall in HF. apply (HF g Hg).
@@ -641,9 +676,9 @@ Section View.
     Qed.
 
     Theorem generated_convert_to_schema : forall f,
-        mappable f = true -> keys_text_ok f = true -> refs_ok f ->
+        (mappable ei) f = true -> keys_text_ok f = true -> refs_ok f ->
         forall fuel sm, (cfuel f <= fuel)%nat ->
-        convert_to_schema s2s defs_store fuel (field_obj f) sm = Ok (sch_json pat_text (fschema f)).
+        convert_to_schema s2s defs_store fuel (field_obj f) sm = Ok (sch_json pat_text ((fschema ei) f)).
     Proof.
       induction f using field_ind'; intros Hm Hk Hr fuel sm Hn; try discriminate Hm;
         need_fuel fuel Hn; rewrite conv_S, generated_convert_dispatch; cbn [is_classref mapper_of].
@@ -655,10 +690,9 @@ Section View.
       - (* FString *) rewrite method_String. apply generated_StringMapper_to_schema.
       - (* FBoolean *) rewrite method_Boolean. apply generated_BooleanMapper_to_schema.
       - (* FEnumLit *)
-        cbn [mappable] in Hm. rewrite method_Enum, generated_EnumMapper_to_schema_lit.
+        rewrite method_Enum, generated_EnumMapper_to_schema_lit.
         + rewrite Hm. reflexivity.
-        + rewrite forallb_forall in *. intros v Hv. specialize (Hm v Hv).
-          destruct v; try discriminate Hm; reflexivity.
+        + apply mappable_lit_plain. exact Hm.
       - (* FEnumCls *) rewrite method_Enum. apply generated_EnumMapper_to_schema_cls.
       - (* FSeqAny *)
         cbn [mappable] in Hm. destruct k; [|discriminate Hm]. cbn [is_list_kind].
@@ -697,7 +731,7 @@ Section View.
       - (* FMapKV *)
         cbn [mappable] in Hm. destruct f1 as [| c | | | | | | | | | | | | | | | | |]; try discriminate Hm.
         cbn [keys_text_ok] in Hk. apply andb_true_iff in Hk as [Hk1 Hk2].
-        assert (E : conv fuel (field_obj f2) sm = Ok (sch_json pat_text (fschema f2))).
+        assert (E : conv fuel (field_obj f2) sm = Ok (sch_json pat_text ((fschema ei) f2))).
         { apply IHf2; [exact Hm | exact Hk2 | exact Hr | cbn [cfuel] in Hn; lia]. }
         rewrite method_Map.
         change (field_obj (FMapKV (FString c) f2 sz)) with (map_obj (PList [field_obj (FString c); field_obj f2]) sz).
@@ -713,9 +747,9 @@ Section View.
         rhs_open. rewrite kw_allOf. reflexivity.
       - (* FAnyOf *)
         rewrite method_AnyOf, generated_AnyOfMapper_to_schema.
-        assert (G : forallb mappable fs = true ->
+        assert (G : forallb (mappable ei) fs = true ->
                     (J <- conv fuel (PList (map field_obj fs)) sm ;; Ok (PDict [(PStr (s2p "anyOf"), J)]))
-                    = Ok (sch_json pat_text (Sch [KAnyOf (map fschema fs)]))).
+                    = Ok (sch_json pat_text (Sch [KAnyOf (map (fschema ei) fs)]))).
         { intro Hm'. need_fuel fuel Hn.
           rewrite (conv_fields_IH fs H Hm' Hk Hr); [|cbn [cfuel] in Hn; lia].
           rewrite sch_json_Sch. unfold jkws. cbn [bind map]. rewrite kw_anyOf. reflexivity. }
@@ -790,11 +824,11 @@ Section View.
     Proof. intros (e & -> & Q). exists e. split; [reflexivity|exact Q]. Qed.
 
     Definition conv_raises (f : field) : Prop :=
-      mappable f = false -> lits_plain f = true -> keys_text_ok f = true -> refs_ok f ->
+      (mappable ei) f = false -> lits_plain f = true -> keys_text_ok f = true -> refs_ok f ->
       forall fuel sm, (cfuel f <= fuel)%nat -> raises (conv fuel (field_obj f) sm).
 
     Lemma conv_fields_raises fs :
-      Forall conv_raises fs -> forallb mappable fs = false -> forallb lits_plain fs = true ->
+      Forall conv_raises fs -> forallb (mappable ei) fs = false -> forallb lits_plain fs = true ->
       forallb keys_text_ok fs = true ->
       (forall c, In c (flat_map field_refs fs) -> exists d x, s2s (cls_val c) PNone = Ok (PTuple [d; x])) ->
       forall n sm, (fold_right Nat.max 0 (map cfuel fs) <= n)%nat ->
@@ -806,7 +840,7 @@ Section View.
         destruct (mapM_raises F (fun e => schema_exn e = true) l) as (e & E & Qe) end.
       - intros x Hx. apply in_map_iff in Hx. destruct Hx as (g & <- & Hg).
         assert (Hfuel : (cfuel g <= n)%nat) by (pose proof (cfuel_in g fs Hg); lia).
-        destruct (mappable g) eqn:Eg.
+        destruct ((mappable ei) g) eqn:Eg.
         + left. eexists.
           rewrite (generated_convert_to_schema g Eg (forallb_In _ _ _ Hk Hg) (refs_ok_in fs g Hr Hg) n sm Hfuel).
           reflexivity.
@@ -832,7 +866,7 @@ Section View.
     (* every declaration the hand model calls unmappable makes convert_to_schema raise TypeError or
        NotImplementedError (never return) *)
     Theorem generated_convert_to_schema_raises : forall f,
-        mappable f = false -> lits_plain f = true -> keys_text_ok f = true -> refs_ok f ->
+        (mappable ei) f = false -> lits_plain f = true -> keys_text_ok f = true -> refs_ok f ->
         forall fuel sm, (cfuel f <= fuel)%nat ->
         exists e, convert_to_schema s2s defs_store fuel (field_obj f) sm = Raise e /\ schema_exn e = true.
     Proof.
@@ -842,8 +876,10 @@ Section View.
       - (* FNone *) apply raises_NIE.
       - (* FAnything *) apply raises_NIE.
       - (* FEnumLit *)
-        cbn [mappable] in Hm. cbn [lits_plain] in Hl.
+        cbn [lits_plain] in Hl.
         rewrite method_Enum, (generated_EnumMapper_to_schema_lit _ _ _ _ Hl), Hm. apply raises_TE.
+      - (* FEnumCls: always mappable *)
+        cbn [mappable] in Hm. unfold enum_mappable in Hm. rewrite enum_vals_cls in Hm. discriminate Hm.
       - (* FSeqAny *) cbn [mappable] in Hm. destruct k; [discriminate Hm|]. apply raises_NIE.
       - (* FSeqEach *)
         cbn [mappable] in Hm. destruct k; [|apply raises_NIE]. cbn [is_list_kind andb] in *.
@@ -882,7 +918,7 @@ Section View.
         apply raises_bind. apply (conv_fields_raises fs H Hm Hl Hk Hr). cbn [cfuel] in Hn; lia.
       - (* FAnyOf *)
         rewrite method_AnyOf, generated_AnyOfMapper_to_schema.
-        assert (G : forallb mappable fs = false ->
+        assert (G : forallb (mappable ei) fs = false ->
                     raises (J <- conv fuel (PList (map field_obj fs)) sm ;; Ok (PDict [(PStr (s2p "anyOf"), J)]))).
         { intro Hm'. need_fuel fuel Hn. apply raises_bind.
           apply (conv_fields_raises fs H Hm' Hl Hk Hr). cbn [cfuel] in Hn; lia. }
@@ -912,25 +948,30 @@ End View.
 
 (* ------------------------------------------------------------------ the side conditions are satisfiable *)
 
-Definition ex_pat_text (p : N) : pystr := if N.eqb p 0 then s2p "^[a-z]+$" else s2p "a.c".
-Definition ex_s2s (c sm : pyval) : res pyval := Ok (PTuple [PDict [(PStr (s2p "type"), PStr (s2p "object"))]; PDict []]).
-Definition ex_store (k v : pyval) : res unit := Ok tt.
+Definition src_ex_pat_text (p : N) : pystr := if N.eqb p 0 then s2p "^[a-z]+$" else s2p "a.c".
+Definition src_ex_s2s (c sm : pyval) : res pyval := Ok (PTuple [PDict [(PStr (s2p "type"), PStr (s2p "object"))]; PDict []]).
+Definition src_ex_store (k v : pyval) : res unit := Ok tt.
+(* PrioV: an IntEnum whose Enum fields are declared with serialization_by_value=True *)
+Definition src_ex_ei : einfo_t :=
+  fun c => if pystr_eqb c (s2p "PrioV") then {| eo_mixin := MixInt; eo_by_value := true |} else no_einfo c.
 
-(* Map[String(pattern=.., minLength=2), Array(items=[PositiveInt(maximum=5), Optional[Enum['a', 3]], <class P>], uniqueItems=True)] *)
-Definition ex_field : field :=
+(* Map[String(pattern=.., minLength=2), Array(items=[PositiveInt(maximum=5), Optional[Enum['a', 3, Color.RED]],
+   Enum(values=PrioV, serialization_by_value=True), <class P>], uniqueItems=True)] *)
+Definition src_ex_field : field :=
   FMapKV (FString {| minLength := Some 2; maxLength := None; pattern := Some 0%N |})
          (FSeqPos SeqList
                   [FNumber KInteger SPositive {| multiplesOf := None; minimum := None; maximum := Some (NInt 5); exclusiveMaximum := true |};
-                   FAnyOf [FEnumLit [PStr (s2p "a"); PNum (NInt 3)]; FNone];
+                   FAnyOf [FEnumLit [PStr (s2p "a"); PNum (NInt 3); PEnum (s2p "Color") (s2p "RED") (PNum (NInt 1))]; FNone];
+                   FEnumCls (s2p "PrioV") [(s2p "LOW", PNum (NInt 1)); (s2p "HIGH", PNum (NInt 2))];
                    FClassRef (s2p "P")]
                   {| minItems := Some 1; maxItems := None |} true (Some false))
          no_sizec.
 
 Example side_conditions_satisfiable :
-  mappable ex_field = true /\ keys_text_ok ex_pat_text ex_field = true /\ refs_ok ex_s2s ex_field /\
-  (forall k v, ex_store k v = Ok tt) /\ (cfuel ex_field <= 6)%nat /\
-  convert_to_schema ex_s2s ex_store 6 (field_obj ex_pat_text ex_field) PNone
-  = Ok (sch_json ex_pat_text (fschema ex_field)).
+  mappable src_ex_ei src_ex_field = true /\ keys_text_ok src_ex_pat_text src_ex_field = true /\ refs_ok src_ex_s2s src_ex_field /\
+  (forall k v, src_ex_store k v = Ok tt) /\ (cfuel src_ex_field <= 6)%nat /\
+  convert_to_schema src_ex_s2s src_ex_store 6 (field_obj src_ex_pat_text src_ex_ei src_ex_field) PNone
+  = Ok (sch_json src_ex_pat_text (fschema src_ex_ei src_ex_field)).
 Proof.
   split; [vm_compute; reflexivity|]. split; [vm_compute; reflexivity|].
   split; [intros c _; eexists; eexists; reflexivity|].
@@ -938,14 +979,14 @@ Proof.
 Qed.
 
 (* Array[Map[Integer, String]] (a key field that is not a String), and a Deque: not mappable, and they raise *)
-Definition ex_unmappable : field :=
+Definition src_ex_unmappable : field :=
   FSeqEach SeqList (FMapKV (FNumber KInteger SAny no_numc) (FString no_strc) no_sizec) no_sizec false.
 
 Example raises_side_conditions_satisfiable :
-  mappable ex_unmappable = false /\ lits_plain ex_unmappable = true /\
-  keys_text_ok ex_pat_text ex_unmappable = true /\ refs_ok ex_s2s ex_unmappable /\
-  convert_to_schema ex_s2s ex_store 4 (field_obj ex_pat_text ex_unmappable) PNone = Raise TypeError /\
-  convert_to_schema ex_s2s ex_store 4 (field_obj ex_pat_text (FSeqAny SeqDeque no_sizec false)) PNone
+  mappable no_einfo src_ex_unmappable = false /\ lits_plain src_ex_unmappable = true /\
+  keys_text_ok src_ex_pat_text src_ex_unmappable = true /\ refs_ok src_ex_s2s src_ex_unmappable /\
+  convert_to_schema src_ex_s2s src_ex_store 4 (field_obj src_ex_pat_text no_einfo src_ex_unmappable) PNone = Raise TypeError /\
+  convert_to_schema src_ex_s2s src_ex_store 4 (field_obj src_ex_pat_text no_einfo (FSeqAny SeqDeque no_sizec false)) PNone
   = Raise NotImplementedError.
 Proof.
   split; [reflexivity|]. split; [reflexivity|]. split; [reflexivity|].
@@ -959,12 +1000,12 @@ Definition map_empty_key_pattern : field :=
   FMapKV (FString {| minLength := None; maxLength := None; pattern := Some 0%N |}) (FNumber KInteger SAny no_numc) no_sizec.
 
 Example source_vs_hand_model_empty_key_pattern :
-  mappable map_empty_key_pattern = true /\
+  mappable no_einfo map_empty_key_pattern = true /\
   keys_text_ok empty_pat_text map_empty_key_pattern = false /\
-  convert_to_schema ex_s2s ex_store 5 (field_obj empty_pat_text map_empty_key_pattern) PNone
+  convert_to_schema src_ex_s2s src_ex_store 5 (field_obj empty_pat_text no_einfo map_empty_key_pattern) PNone
   = Ok (PDict [(PStr (s2p "type"), PStr (s2p "object"));
                (PStr (s2p "additionalProperties"), PDict [(PStr (s2p "type"), PStr (s2p "integer"))])]) /\
-  sch_json empty_pat_text (fschema map_empty_key_pattern)
+  sch_json empty_pat_text (fschema no_einfo map_empty_key_pattern)
   = PDict [(PStr (s2p "type"), PStr (s2p "object"));
            (PStr (s2p "patternProperties"), PDict [(PStr (s2p "type"), PStr (s2p "integer"))])].
 Proof. repeat split; vm_compute; reflexivity. Qed.
